@@ -273,10 +273,11 @@ def coverage_fn(text):
     b = re.sub(r"for\s+transition\s+in\s+transitions\s*\{", "for t_ in 0..transitions.len() { let transition = &transitions[t_];", b)
     b = re.sub(r"\bOk\s*\(", "Some(", b)
     b = err_to_none(b)
-    if re.search(r"\b(Ok|Err|continue)\b", b) or len(vlib.find_all_code(b, r"\bfor\b")) != 4:
+    if re.search(r"\b(Ok|Err|continue)\b", b):
         raise AnchorLost("validate_fsm_state_coverage: the traversal is outside the transcription rules")
     N = "*state_names"
-    loops = [
+    # invariants are attached by loop variable (a_ arms, g_ guards, j_ a guard's transitions, t_ the arm's own transitions)
+    by_var = [
         ("    invariant arms_ok(fsm.arms@, a_ as int, %s)," % N, ""),
         ("    invariant a_ < fsm.arms@.len(), *arm == fsm.arms@[a_ as int], *arm is Guard, arm->Guard_1 == *guards, arms_ok(fsm.arms@, a_ as int, %s), guards_ok(guards@, g_ as int, %s)," % (N, N), ""),
         ("    invariant g_ < guards@.len(), *guard == guards@[g_ as int], a_ < fsm.arms@.len(), *arm == fsm.arms@[a_ as int], *arm is Guard, arm->Guard_1 == *guards,\n"
@@ -284,6 +285,15 @@ def coverage_fn(text):
         ("    invariant a_ < fsm.arms@.len(), *arm == fsm.arms@[a_ as int], arms_ok(fsm.arms@, a_ as int, %s), all_ok(transitions@, t_ as int, %s),\n"
          "      all_ok(transitions@, transitions@.len() as int, %s) <==> arm_ok(*arm, %s)," % (N, N, N, N), ""),
     ]
+    keyed = dict(zip(("a_", "g_", "j_", "t_"), by_var))
+    loops = []
+    for m in vlib.find_all_code(b, r"\bfor\b"):
+        mv = re.match(r"for\s+(\w+)\s+in\s+0\.\.", b[m.start():])
+        if not mv or mv.group(1) not in keyed:
+            raise AnchorLost("validate_fsm_state_coverage: a loop the contract has no invariant for")
+        loops.append(keyed[mv.group(1)])
+    if not any(l is keyed["a_"] for l in loops) or not any(l is keyed["t_"] for l in loops):
+        raise AnchorLost("validate_fsm_state_coverage: the loops over the arms and over an arm's transitions not found")
     b = vmat.inject(b, loops)
     return ("fn validate_fsm_state_coverage_traversal(fsm: &FsmImplementation, state_names: &NameSet, fsm_pipe: &FsmPipe) -> (res: Option<()>)\n"
             "  ensures res.is_some() <==> arms_ok(fsm.arms@, fsm.arms@.len() as int, %s),\n{\n" % N + b + "\n}\n")
